@@ -109,7 +109,8 @@ def make_pagexml_element(name: str, ele_id: str = None, custom: Dict[str, any] =
         add_pagexml_coords(element, coords)
     if baseline is not None:
         add_pagexml_baseline(element, baseline)
-    if text is not None:
+    if text is not None or conf is not None:
+        # (a confidence without text is still written, with an empty Unicode element)
         # Why check content? If someone put something in there that's not supposed
         # to be there, that's not the problem of the XML export function. In other
         # words, skip the line below:
